@@ -536,6 +536,59 @@ func guided(dir string, seed int64, table *enc.Table, trace *util.NDJSON) {
 			}
 			return false
 		}},
+		// shutdown while writers wait for the slot that a session transaction keeps: Close completes and the queued
+		// calls return promptly, although the holder has not released anything
+		{"close while writers are queued", func(client lungo.IClient, engine *lungo.Engine, s *conc.Sched) bool {
+			coll := client.Database("d").Collection("z")
+			coll.InsertOne(context.Background(), d("_id", int32(1), "n", int32(0)))
+			sess, _ := client.StartSession()
+			sess.StartTransaction()
+			sctx := lungo.VerifSessionContext(context.Background(), sess)
+			coll.UpdateOne(sctx, d("_id", int32(1)), d("$inc", d("n", int32(1)))) // the session now holds the writer slot
+			var wg sync.WaitGroup
+			errs := make([]error, 3)
+			gates := []*conc.Gate{}
+			for w := 0; w < 3; w++ {
+				w := w
+				g := s.AddGate("Q"+strconv.Itoa(w), "begin.wait")
+				gates = append(gates, g)
+				wg.Add(1)
+				go func() {
+					defer wg.Done()
+					defer func() { recover() }()
+					s.SetRole("Q" + strconv.Itoa(w))
+					switch w {
+					case 0:
+						_, errs[w] = coll.UpdateOne(context.Background(), d("_id", int32(1)), d("$inc", d("n", int32(100))))
+					case 1:
+						_, errs[w] = coll.InsertOne(context.Background(), d("_id", int32(2)))
+					default:
+						errs[w] = client.Database("d").Collection("other").Drop(context.Background())
+					}
+				}()
+			}
+			for _, g := range gates {
+				g.Arrived(2 * time.Second)
+				g.Release()
+			}
+			time.Sleep(20 * time.Millisecond) // the writers are now waiting for the slot
+			if !within(5*time.Second, engine.Close) {
+				finding("wedge", "Engine.Close does not complete while writers are queued behind a session transaction", V{"stacks": stacks()})
+				return false
+			}
+			if !waitAll(&wg, 5*time.Second) {
+				finding("wedge", "writers queued for the slot are still blocked 5 s after Engine.Close", V{"stacks": stacks()})
+				return false
+			}
+			for w, err := range errs {
+				if err == nil {
+					finding("wedge", "a write that was queued when the engine was closed reports success", V{"writer": w})
+				}
+			}
+			sess.AbortTransaction(context.Background())
+			sess.EndSession(context.Background())
+			return false
+		}},
 	}
 	for i, sc := range scens {
 		s := conc.NewSched(seed+int64(i), 0)
@@ -551,8 +604,9 @@ func guided(dir string, seed int64, table *enc.Table, trace *util.NDJSON) {
 			finding("wedge", "deadlock in the forced interleaving '"+sc.name+"'", V{"stacks": stacks()})
 			continue
 		}
-		probe(client, false, "after the forced interleaving '"+sc.name+"'", nil)
-		trace.Write(V{"fn": "proto", "hist": 1000 + i, "events": s.ProtoEvents(), "quiescent": true})
+		closed := strings.HasPrefix(sc.name, "close ")
+		probe(client, closed, "after the forced interleaving '"+sc.name+"'", nil)
+		trace.Write(V{"fn": "proto", "hist": 1000 + i, "events": s.ProtoEvents(), "quiescent": !closed})
 		engine.Close()
 	}
 }
